@@ -402,6 +402,37 @@ fn slice_overflow() -> serde_json::Value {
     json!({"found": false, "routine": "slice_overflow", "tried": 3})
 }
 
+// C10: elementwise arithmetic of the evaluator vs. wrapping reference arithmetic on special values of every width
+fn arith_kernels(seed: u64) -> serde_json::Value {
+    let mut rng = Rng(seed | 1);
+    let sts = [UINT8, INT8, UINT16, INT16, UINT32, INT32, UINT64, INT64, UINT128, INT128];
+    let mut tried = 0u64;
+    for st in sts {
+        let bits = st.size_in_bits();
+        let mask: u128 = if bits == 128 { u128::MAX } else { (1u128 << bits) - 1 };
+        let mut specials: Vec<u128> = vec![0, 1, 2, 3, mask, mask - 1, mask >> 1, (mask >> 1) + 1, 0x5555_5555_5555_5555_5555_5555_5555_5555 & mask, 0xAAAA_AAAA_AAAA_AAAA_AAAA_AAAA_AAAA_AAAA & mask];
+        for _ in 0..6 { specials.push((((rng.next() as u128) << 64) | rng.next() as u128) & mask); }
+        for op in ["add", "subtract", "multiply"] {
+            let n = specials.len();
+            let mut a = vec![]; let mut b = vec![];
+            for x in &specials { for y in &specials { a.push(*x); b.push(*y); } }
+            let t = array_type(vec![(n * n) as u64], st);
+            let c = ciphercore_base::graphs::util::simple_context(|g| { let i = g.input(t.clone())?; let j = g.input(t.clone())?; match op { "add" => i.add(j), "subtract" => i.subtract(j), _ => i.multiply(j) } }).unwrap();
+            let r = random_evaluate(c.get_main_graph().unwrap(), vec![Value::from_flattened_array(&a, st).unwrap(), Value::from_flattened_array(&b, st).unwrap()]).unwrap();
+            let got = r.to_flattened_array_u128(t.clone()).unwrap();
+            for k in 0..a.len() {
+                tried += 1;
+                let want = match op { "add" => a[k].wrapping_add(b[k]), "subtract" => a[k].wrapping_sub(b[k]), _ => a[k].wrapping_mul(b[k]) } & mask;
+                if got[k] & mask != want {
+                    return json!({"found": true, "routine": "arith_kernels", "property": "C10", "input": {"scalar_type": format!("{}", st), "op": op, "a": a[k].to_string(), "b": b[k].to_string()},
+                        "expected": want.to_string(), "observed": (got[k] & mask).to_string(), "what": "SimpleEvaluator on elementwise arithmetic vs. wrapping arithmetic modulo 2^w"});
+                }
+            }
+        }
+    }
+    json!({"found": false, "routine": "arith_kernels", "tried": tried})
+}
+
 fn main() {
     let args: Vec<String> = std::env::args().collect();
     let seed: u64 = args.get(2).and_then(|s| s.parse().ok()).unwrap_or(0);
@@ -414,6 +445,7 @@ fn main() {
         Some("value_corrupt") => value_corrupt(),
         Some("truncate2k_large_k") => truncate2k_large_k(),
         Some("slice_overflow") => slice_overflow(),
+        Some("arith_kernels") => arith_kernels(seed),
         Some("party_sim_c01") => party_sim::run(seed, "C01"),
         Some("party_sim_c02") => party_sim::run(seed, "C02"),
         Some("party_sim_c03") => party_sim::run(seed, "C03"),
